@@ -87,62 +87,34 @@ def Push.pull (s : Push) : Res (Ev × Push) :=
   | .err e => .err e
   | .panic x => .panic x
 
-mutual
-/-- `load_node` -/
-def loadNode : Nat → Ev → Push → Res Push
+def isDocumentStart : Event → Bool | .documentStart _ => true | _ => false
+
+/-- the node loop of `load_document`: forward events until every opened collection is closed.
+    `depth` = number of open collections. -/
+def loadNodeLoop : Nat → Nat → Push → Res Push
   | 0, _, _ => .panic .fuel
-  | fuel + 1, e, s =>
-    match e.1 with
-    | .alias _ | .scalar .. => .ok (s.recv e)
-    | .sequenceStart .. => loadSequence fuel (s.recv e)
-    | .mappingStart .. => loadMapping fuel (s.recv e)
-    | _ => .panic .loadNodeUnreachable
-/-- `load_sequence`: `while ev != SequenceEnd { load_node; next }` -/
-def loadSequence : Nat → Push → Res Push
-  | 0, _ => .panic .fuel
-  | fuel + 1, s =>
+  | fuel + 1, depth, s =>
     match s.pull with
     | .err e => .err e | .panic x => .panic x
     | .ok (e, s) =>
-      if e.1 == .sequenceEnd then .ok (s.recv e)
-      else match loadNode fuel e s with
-        | .err e => .err e | .panic x => .panic x
-        | .ok s => loadSequence fuel s
-/-- `load_mapping`: `while key != MappingEnd { load_node key; load_node value; next }` -/
-def loadMapping : Nat → Push → Res Push
-  | 0, _ => .panic .fuel
-  | fuel + 1, s =>
-    match s.pull with
-    | .err e => .err e | .panic x => .panic x
-    | .ok (k, s) =>
-      if k.1 == .mappingEnd then .ok (s.recv k)
-      else match loadNode fuel k s with
-        | .err e => .err e | .panic x => .panic x
-        | .ok s =>
-          match s.pull with
-          | .err e => .err e | .panic x => .panic x
-          | .ok (v, s) =>
-            match loadNode fuel v s with
-            | .err e => .err e | .panic x => .panic x
-            | .ok s => loadMapping fuel s
-end
-
-def isDocumentStart : Event → Bool | .documentStart _ => true | _ => false
+      match e.1 with
+      | .sequenceStart .. | .mappingStart .. => loadNodeLoop fuel (depth + 1) (s.recv e)
+      | .sequenceEnd | .mappingEnd =>
+        if depth = 0 then .panic .loadNodeUnreachable
+        else if depth = 1 then .ok (s.recv e) else loadNodeLoop fuel (depth - 1) (s.recv e)
+      | .alias _ | .scalar .. => if depth = 0 then .ok (s.recv e) else loadNodeLoop fuel depth (s.recv e)
+      | _ => .panic .loadNodeUnreachable
 
 /-- `load_document` -/
 def loadDocument (fuel : Nat) (first : Ev) (s : Push) : Res Push :=
   if !isDocumentStart first.1 then .err ⟨first.2.start, "did not find expected <document-start>"⟩
   else
-    let s := s.recv first
-    match s.pull with
+    match loadNodeLoop fuel 0 (s.recv first) with
     | .err e => .err e | .panic x => .panic x
-    | .ok (e, s) =>
-      match loadNode fuel e s with
+    | .ok s =>
+      match s.pull with
       | .err e => .err e | .panic x => .panic x
-      | .ok s =>
-        match s.pull with
-        | .err e => .err e | .panic x => .panic x
-        | .ok (e, s) => if e.1 == .documentEnd then .ok (s.recv e) else .panic .assertDocumentEnd
+      | .ok (e, s) => if e.1 == .documentEnd then .ok (s.recv e) else .panic .assertDocumentEnd
 
 /-- the document loop of `load` -/
 def loadLoop (multi : Bool) : Nat → Push → Res Push
